@@ -136,6 +136,14 @@ Definition request_uri (u : url) : string :=
   (if String.eqb p EmptyString then "/" else p) +++
   (if String.eqb (u_query u) EmptyString then EmptyString else "?" +++ u_query u).
 
+(* connection upgrades: UpgradeAwareHandler.tryUpgrade writes the request with the dispatcher's location as its
+   URL (no Director in between) *)
+Definition upgrade_target (t : string) : option string :=
+  match parse_target t with
+  | None => None
+  | Some u => Some (request_uri (dispatch_location u))
+  end.
+
 Definition rebuild_target (t : string) : option string :=
   match parse_target t with
   | None => None
@@ -223,8 +231,10 @@ Record upstream_request := mkUp {
 
 Inductive result :=
 | Relayed (up : upstream_request) (r : response)    (* forwarded once; the client receives r *)
+| Upgraded (up : upstream_request)                  (* connection upgrade: the request the upstream receives; what
+                                                       follows (101 + tunnel, or the upstream's refusal) is relayed raw *)
 | Terminated (rs : reason) (t : termination)        (* answered by the gateway; nothing forwarded *)
-| OutOfModel.                                       (* upgrade requests; targets net/http rejects *)
+| OutOfModel.                                       (* targets net/http rejects *)
 
 Definition term (rs : reason) : result := Terminated rs (terminate rs).
 
@@ -233,7 +243,7 @@ Definition gateway (token client_ip : string) (c : cluster) (q : request) (id : 
   match c with
   | CUnknown => term NotProxied
   | _ =>
-    match filters (q_headers q) id authz with
+    match filters_core (q_headers q) id authz with
     | Upgrade => OutOfModel
     | Refuse code => if Z.eqb code 403 then term ImpersonationRefused else term ImpersonationMalformed
     | Pass h1 id1 =>
@@ -242,6 +252,17 @@ Definition gateway (token client_ip : string) (c : cluster) (q : request) (id : 
         | CNoEndpoint => term NoReadyEndpoint
         | CDead => term UpstreamError
         | _ =>
+          if is_upgrade_request (q_headers q) then
+            match upgrade_target (q_target q) with
+            | None => OutOfModel
+            | Some uri =>
+                match upgrade_send client_ip id1 h1 with
+                | Forwarded h2 => Upgraded (mkUp (q_method q) uri (q_host q) h2 (q_body q))
+                | Answered _ => term UpstreamError
+                | NotModelled => OutOfModel
+                end
+            end
+          else
             match rebuild_target (q_target q) with
             | None => OutOfModel
             | Some uri =>
